@@ -234,8 +234,10 @@ def op_text(model, sg, op, kind):
     elif kind == "FULLY_CONNECTED":
         x, w, o = T[ins[0]], T[ins[1]], T[outs[0]]
         faf = opt(op, 0, "b", 0)
-        if opt(op, 1, "b", 0) != 0 or opt(op, 2, "B", 0) != 0:
-            raise NotSimulated("FULLY_CONNECTED:weights_format_or_keep_num_dims")
+        # keep_num_dims only changes the shape of the result (batches = all elements / accumulation depth either way; the Lean
+        # reference takes the result shape from the file and checks the element count)
+        if opt(op, 1, "b", 0) != 0:
+            raise NotSimulated("FULLY_CONNECTED:weights_format")
         sx, _ = one_scale(x, kind)
         sw_, _ = one_scale(w, kind)
         so, zo = one_scale(o, kind)
@@ -459,28 +461,11 @@ def op_text(model, sg, op, kind):
         b, e, st = (const_ints(model, T[i]) for i in ins[1:4])
         if b is None or e is None or st is None:
             raise NotSimulated("STRIDED_SLICE:dynamic")
-        if any(s_ <= 0 for s_ in st):
-            raise NotSimulated("STRIDED_SLICE:non_positive_stride")
+        # the raw slice specification of the file (begin / end / strides values and the five masks, all indexed by position in
+        # the specification): resolved against the operand's shape by the Lean transcription of the TFLite reference
+        # (Spec/StridedSliceRef.lean: negative indices, clamping, begin/end masks, new-axis / shrink / ellipsis positions)
         bm, em, ell, new_ax, shrink = (opt(op, k, "i", 0) for k in range(5))
-        if ell or new_ax or opt(op, 5, "B", 0):
-            raise NotSimulated("STRIDED_SLICE:ellipsis_new_axis_or_offset")
-        shape = T[ins[0]]["shape"]
-        if not (len(b) == len(e) == len(st) == len(shape)):
-            raise NotSimulated("STRIDED_SLICE:rank")
-        # strided_slice_logic.h for positive strides: negative indices wrap once, then clamp to [0, dim]; masks select the ends
-        rb, re_ = [], []
-        for i, d in enumerate(shape):
-            bi = b[i] + d if b[i] < 0 else b[i]
-            ei = e[i] + d if e[i] < 0 else e[i]
-            bi = 0 if (bm >> i) & 1 else min(max(bi, 0), d)
-            ei = d if (em >> i) & 1 else min(max(ei, 0), d)
-            if (shrink >> i) & 1:
-                ei = bi + 1
-            if ei <= bi:
-                raise NotSimulated("STRIDED_SLICE:empty")
-            rb.append(bi)
-            re_.append(ei)
-        g = [rb, re_, list(st)]
+        g = [list(b), list(e), list(st), [bm, em, ell, new_ax, shrink, int(bool(opt(op, 5, "B", 0)))]]
         ins = ins[:1]
     elif kind == "PAD":
         p = const_ints(model, T[ins[1]])
